@@ -9,6 +9,10 @@ Prints what the Lean side knows, for checks/c01.py and checks/c04.py to cross-ch
                                           -> JSON {"rbw":[..],"may":[..],"killN":[..]|null,"killR":[..]|null,"bad":[..],"calls":n}
      entry: mj_step mj_step1 mj_step2 mj_forward mj_inverse mj_forwardSkip mj_inverseSkip
      integ: mjINT_EULER mjINT_RK4 mjINT_IMPLICIT mjINT_IMPLICITFAST or - (unknown)
+  leaves <solver|->                       -> JSON object  leaf key -> footprint | null   (Gen/Pipeline.subStageKeys, context ctxS)
+  subanalyze <fn> <solver|-> <nefc 0|1|-> -> like analyze, for the translated body of a stage function
+     fn: mj_fwdConstraint mj_invConstraint;  solver: mjSOL_PGS mjSOL_CG mjSOL_NEWTON or - (unknown);
+     nefc: the data guard `nefc` (are there constraint rows) assumed false / true, or - (unknown)
 -/
 open MjProof MjProof.Driver MjProof.Prog MjProof.Footprint MjProof.Pipeline
 
@@ -22,6 +26,22 @@ def parseBool (s : String) : Option Bool := if s = "0" then some false else if s
 def parseInteg (s : String) : Option (Option String) :=
   if s = "-" then some none
   else if s ∈ ["mjINT_EULER", "mjINT_RK4", "mjINT_IMPLICIT", "mjINT_IMPLICITFAST"] then some (some s) else none
+
+def parseSolver (s : String) : Option (Option String) :=
+  if s = "-" then some none else if s ∈ solverNames then some (some s) else none
+def parseNefc (s : String) : Option (List (String × Bool)) :=
+  if s = "-" then some [] else (parseBool s).map (fun b => [("nefc", b)])
+def subEntry (name : String) : Option Prog :=
+  match name with
+  | "mj_fwdConstraint" => some mjFwdConstraint
+  | "mj_invConstraint" => some mjInvConstraint
+  | _ => none
+def jfp (fp : Footprint Grp) : String :=
+  "{\"R\": " ++ jgrps fp.R ++ ", \"W\": " ++ jgrps fp.W ++ ", \"K\": " ++ jgrps fp.K ++ "}"
+def jflow (r : AFlow Grp) (p : Prog) (left : Bool) : String :=
+  "{\"rbw\": " ++ jgrps r.rbw ++ ", \"may\": " ++ jgrps r.may ++ ", \"killN\": " ++ jopt r.killN ++
+    ", \"killR\": " ++ jopt r.killR ++ ", \"bad\": " ++ jlist r.bad ++ ", \"calls\": " ++
+    toString (stageKeys p).length ++ ", \"inlinable_left\": " ++ toString left ++ "}"
 
 def entryProg (name : String) (a : List Int) : Option Prog :=
   match name, a with
@@ -48,6 +68,19 @@ def step (line : String) : String :=
         jstr k ++ ": " ++ (match (ctx sl).stage k with
           | none => "null"
           | some fp => "{\"R\": " ++ jgrps fp.R ++ ", \"W\": " ++ jgrps fp.W ++ ", \"K\": " ++ jgrps fp.K ++ "}"))) ++ "}"
+  | ["leaves", s] =>
+    match parseSolver s with
+    | none => "bad-op"
+    | some sol =>
+      "{" ++ ", ".intercalate (Gen.Pipeline.subStageKeys.map (fun k =>
+        jstr k ++ ": " ++ (match (ctxS sol).stage k with
+          | none => "null"
+          | some fp => jfp fp))) ++ "}"
+  | ["subanalyze", name, s, n] =>
+    match subEntry name, parseSolver s, parseNefc n with
+    | some p, some sol, some ex =>
+      jflow (analyzeS { solver := sol, extra := ex } p) p (hasInlinable Gen.Pipeline.subTable p)
+    | _, _, _ => "bad-op"
   | "analyze" :: name :: s :: i :: rest =>
     match parseBool s, parseInteg i, rest.mapM String.toInt? with
     | some sl, some integ, some a =>
